@@ -318,6 +318,8 @@ class NetworkGraph(AbstractBaseIR):
 
             # extract and process delay distribution spread
             v = self.edges[s, t, e].pop('spread', [0])
+            if type(v) is list:
+                v = [0 if v_tmp is None else v_tmp for v_tmp in v]
             n_slots = max(len(self.edges[s, t, e]['target_idx']), 1)
             if v is None or np.sum(v) == 0:
                 v = [0] * n_slots
